@@ -123,3 +123,13 @@ Proof.
   intros Hb H. unfold decode_compact in H. destruct (zlen s mod 6 =? 0); [|discriminate].
   inversion H; subst. apply compact_peers_wf. exact Hb.
 Qed.
+
+(* whatever the tracker declares and however much it streams, at most [limit] bytes of the reply
+   are read, and they are a prefix of what was sent *)
+Theorem read_reply_bounded limit declared stream got : 0 <= limit -> read_reply limit declared stream = Some got ->
+  zlen got <= limit /\ exists rest, stream = got ++ rest.
+Proof.
+  intros Hl H. assert (G : zlen (firstn (Z.to_nat limit) stream) <= limit /\ exists rest, stream = firstn (Z.to_nat limit) stream ++ rest).
+  { split; [unfold zlen; rewrite firstn_length; lia|]. exists (skipn (Z.to_nat limit) stream). symmetry. apply firstn_skipn. }
+  unfold read_reply in H. destruct declared as [n|]; [destruct (n >? limit); [discriminate|]|]; inversion H; subst; exact G.
+Qed.
